@@ -35,6 +35,10 @@ def run(ctx):
         for d in dec:
             kw = dict(d[3])
             ctx.ob("R1", "tokenize_hostname/idna-per-label", kw.get("as_parts") == ("const", True) or (len(d[2]) > 1 and d[2][1] == ("const", True)), "tokenize_hostname does not ask for per-label decoding (as_parts=True)", site)
+    # no shortcut return that skips the per-label decoding (e.g. `if not hostname.startswith("xn--")`)
+    shortcuts = [r for r in rets if not (r.term[0] == "list" and r.term[1] == (("param", "hostname"),)) and not F.find_nodes(r.term, F.is_call("ural.utils.decode_punycode_hostname"))]
+    ctx.ob("R1", "tokenize_hostname/every-path-decodes-punycode", not shortcuts,
+           "tokenize_hostname has a return path that skips punycode decoding: 'www.xn--tlrama-bvab.fr' and 'www.télérama.fr' are different keys", site, witness="www.xn--tlrama-bvab.fr")
     # decode_punycode_hostname: splits on '.', decodes labels whose lower-cased 4-prefix is 'xn--'
     ut = repo.mod("utils")
     dref = ut.func("decode_punycode_hostname")
@@ -94,6 +98,9 @@ def run(ctx):
     except Unknown as e:
         ctx.undecided("R1", "join_hostname: %s" % e)
 
+    ctx.rule("R0", "special hosts and parsing helper: SPECIAL_HOSTS_RE accepts exactly localhost / dotted quads / colon-bearing hex literals (other hosts must be tokenised label by label); safe_urlsplit adds a scheme iff PROTOCOL_RE does not match")
+    U.rule_special_hosts(ctx, "R0")
+    U.rule_safe_urlsplit(ctx, "R0")
     ctx.rule("R2", "set_and_prune_if_shorter: every descend appends the parent first; the walk stops before consuming a token when it stands on a stored (shorter) entry; counters +1 only on a first insertion; prune branch: ancestors change by -(c-1) read before the reset, own counter zeroed, children reset to None (so the branch is not re-entered)")
     T.rule_insert(ctx, "R2", "set_and_prune_if_shorter", prune=True)
     T.rule_sentinel(ctx, "R3")
